@@ -50,6 +50,23 @@ pub fn jobs(ctx: &Ctx) -> Vec<Job> {
             }
         }
     }
+    {
+        // a few random lengths in every (version, level, mode) cell, both tiers
+        let mut rng = Rng::new(ctx.seed ^ 0x1c01);
+        for v in 1..=40usize {
+            for level in 0..4usize {
+                for m in 0..4usize {
+                    let class = if m < 3 { m } else { rng.below(3) };
+                    let mode = if m < 3 { Some(m) } else { None };
+                    let cap = caps.cap(v, level, class);
+                    for _ in 0..ctx.tier.pick(6, 6) {
+                        let len = rng.below(cap + 1);
+                        push(&mut jobs, FAMS[3], class, mode, Some(level), Some(v), len, &mut k);
+                    }
+                }
+            }
+        }
+    }
     if ctx.tier == Tier::Thorough {
         let mut rng = Rng::new(ctx.seed ^ 0xc01);
         for v in 1..=40usize {
@@ -63,7 +80,7 @@ pub fn jobs(ctx: &Ctx) -> Vec<Job> {
                             push(&mut jobs, FAMS[2], class, mode, Some(level), Some(v), len, &mut k);
                         }
                     } else {
-                        for _ in 0..ctx.scale(150) {
+                        for _ in 0..ctx.scale(1200) {
                             let len = rng.below(cap + 1);
                             let version = if rng.chance(1, 3) { None } else { Some(v) };
                             let len = if version.is_none() {
